@@ -83,6 +83,18 @@ def _cases_core(rng, tier):
     for j_ in range(1, len(parts_)):
         for bad_c in common.edge_variants(parts_[j_]):
             yield "path_parse " + sx("/".join(parts_[:j_] + [bad_c] + parts_[j_ + 1:])), "edge-character-component"
+    # look-alikes / case variants of the grammar's own characters (h, ', /, m, M): `44H`, a typographic apostrophe, a
+    # full-width solidus, ... must be refused, never read as something else
+    look_ = common.unicode_lookalikes()
+    marks = ["H", "\u2019", "\u2032", "\u02b9", "`", "\u00b4", "\u02bc", "\uff07"] + look_.get("h", []) + look_.get("H", []) + look_.get("'", [])
+    for mk in marks:
+        for s_ in ("m/0%s" % mk, "m/44%s/0'/0'" % mk, "m/44'/1%s/2" % mk, "M/7%s" % mk):
+            yield "path_parse " + sx(s_), "marker-lookalike"
+        yield "w_bypath xkey:%s %s" % (sx(XPRV), sx("m/0%s/1" % mk)), "marker-lookalike-bypath"
+    for sl in ["\\", "\uff0f", "\u2215", "\u2044", "|"] + look_.get("/", []):
+        yield "path_parse " + sx("m%s0%s1" % (sl, sl)), "separator-lookalike"
+    for rt in ["\uff4d", "\uff2d", "\u217f", "\u2133"] + look_.get("m", []) + look_.get("M", []):
+        yield "path_parse " + sx(rt + "/0"), "root-lookalike"
     # deep paths (K1)
     for depth in range(6, 13):
         for _ in range(3 if tier == "quick" else 40):
